@@ -6,8 +6,15 @@
 //! the shape), compared with the naive reference model.
 
 use memchr::arch::all::memchr as swar;
+#[cfg(feature = "neon")]
+use memchr::arch::aarch64::neon::memchr as neon;
+#[cfg(feature = "simd128")]
+use memchr::arch::wasm32::simd128::memchr as simd128;
+#[cfg(feature = "x86")]
 use memchr::arch::x86_64::avx2::memchr as avx2;
+#[cfg(feature = "x86")]
 use memchr::arch::x86_64::sse2::memchr as sse2;
+#[cfg(feature = "vn")]
 use memchr::verif as mv;
 
 use mcore::{arena::Arena, enumr, guarded, hex, oracle, par, unhex, Args, Report, Violation};
@@ -19,6 +26,8 @@ enum Subject {
     Swar,
     Sse2,
     Avx2,
+    Neon,
+    Simd128,
     Top,
 }
 
@@ -29,6 +38,8 @@ impl Subject {
             Subject::Swar => "swar".into(),
             Subject::Sse2 => "sse2".into(),
             Subject::Avx2 => "avx2".into(),
+            Subject::Neon => "neon".into(),
+            Subject::Simd128 => "simd128".into(),
             Subject::Top => "top".into(),
         }
     }
@@ -37,6 +48,8 @@ impl Subject {
             "swar" => Subject::Swar,
             "sse2" => Subject::Sse2,
             "avx2" => Subject::Avx2,
+            "neon" => Subject::Neon,
+            "simd128" => Subject::Simd128,
             "top" => Subject::Top,
             _ => Subject::Vn(s.strip_prefix("vn").expect("subject").parse().unwrap()),
         }
@@ -46,7 +59,7 @@ impl Subject {
         match self {
             Subject::Vn(n) => n,
             Subject::Swar => 8,
-            Subject::Sse2 => 16,
+            Subject::Sse2 | Subject::Neon | Subject::Simd128 => 16,
             Subject::Avx2 | Subject::Top => 32,
         }
     }
@@ -92,6 +105,18 @@ impl Op {
 enum Res {
     Pos(Option<usize>),
     Cnt(usize),
+}
+
+#[cfg(not(feature = "vn"))]
+mod mv {
+    #[derive(Clone, Copy, Debug)]
+    pub struct LoadStats {
+        pub loads: u64,
+        pub aligned_loads: u64,
+        pub oob: u64,
+        pub misaligned: u64,
+        pub first_bad: Option<(isize, usize)>,
+    }
 }
 
 struct CallOut {
@@ -198,8 +223,14 @@ macro_rules! real_subject {
 }
 
 real_subject!(call_swar, swar, plain);
+#[cfg(feature = "x86")]
 real_subject!(call_sse2, sse2, opt);
+#[cfg(feature = "x86")]
 real_subject!(call_avx2, avx2, opt);
+#[cfg(feature = "neon")]
+real_subject!(call_neon, neon, opt);
+#[cfg(feature = "simd128")]
+real_subject!(call_simd128, simd128, opt);
 
 fn call_top(k: u8, op: Op, nd: [u8; 3], hay: &[u8]) -> CallOut {
     let r = match (k, op) {
@@ -215,6 +246,7 @@ fn call_top(k: u8, op: Op, nd: [u8; 3], hay: &[u8]) -> CallOut {
     CallOut { res: r, stats: None, raw_problem: None }
 }
 
+#[cfg(feature = "vn")]
 fn call_vn<const N: usize>(k: u8, op: Op, nd: [u8; 3], hay: &[u8]) -> CallOut {
     assert!(hay.len() >= N);
     let s = hay.as_ptr();
@@ -256,18 +288,53 @@ fn call_vn<const N: usize>(k: u8, op: Op, nd: [u8; 3], hay: &[u8]) -> CallOut {
     out
 }
 
+/// In builds against emulated NEON / simd128 intrinsics every vector load of
+/// the real ISA modules reports to the load monitor, so the haystack is
+/// registered as the only readable region for every subject.
+#[cfg(all(feature = "vn", any(feature = "neon", feature = "simd128")))]
 fn call(subject: Subject, k: u8, op: Op, nd: [u8; 3], hay: &[u8]) -> CallOut {
+    if matches!(subject, Subject::Vn(_)) {
+        return call_inner(subject, k, op, nd, hay);
+    }
+    let s = hay.as_ptr();
+    mv::set_region(s, unsafe { s.add(hay.len()) });
+    let mut out = call_inner(subject, k, op, nd, hay);
+    let st = mv::take_stats();
+    if st.loads > 0 {
+        out.stats = Some(st);
+    }
+    out
+}
+
+#[cfg(not(all(feature = "vn", any(feature = "neon", feature = "simd128"))))]
+fn call(subject: Subject, k: u8, op: Op, nd: [u8; 3], hay: &[u8]) -> CallOut {
+    call_inner(subject, k, op, nd, hay)
+}
+
+fn call_inner(subject: Subject, k: u8, op: Op, nd: [u8; 3], hay: &[u8]) -> CallOut {
     match subject {
+        #[cfg(feature = "vn")]
         Subject::Vn(2) => call_vn::<2>(k, op, nd, hay),
+        #[cfg(feature = "vn")]
         Subject::Vn(4) => call_vn::<4>(k, op, nd, hay),
+        #[cfg(feature = "vn")]
         Subject::Vn(8) => call_vn::<8>(k, op, nd, hay),
+        #[cfg(feature = "vn")]
         Subject::Vn(16) => call_vn::<16>(k, op, nd, hay),
+        #[cfg(feature = "vn")]
         Subject::Vn(32) => call_vn::<32>(k, op, nd, hay),
-        Subject::Vn(_) => panic!("unsupported VN width"),
         Subject::Swar => call_swar(k, op, nd, hay),
+        #[cfg(feature = "x86")]
         Subject::Sse2 => call_sse2(k, op, nd, hay),
+        #[cfg(feature = "x86")]
         Subject::Avx2 => call_avx2(k, op, nd, hay),
+        #[cfg(feature = "neon")]
+        Subject::Neon => call_neon(k, op, nd, hay),
+        #[cfg(feature = "simd128")]
+        Subject::Simd128 => call_simd128(k, op, nd, hay),
         Subject::Top => call_top(k, op, nd, hay),
+        #[allow(unreachable_patterns)]
+        other => panic!("subject {:?} is not available in this build configuration", other),
     }
 }
 
@@ -415,7 +482,9 @@ fn check_shape(
                                 r.bump(&format!("also/{}", cls));
                             }
                         }
-                        region = if st.aligned_loads > 0 {
+                        region = if !matches!(subject, Subject::Vn(_)) {
+                            "emulated-isa/monitored"
+                        } else if st.aligned_loads > 0 {
                             "vn/unrolled-loop"
                         } else if st.loads <= 1 {
                             "vn/single-chunk"
@@ -685,8 +754,18 @@ fn run_raw_edges(total: &mut Report) {
         };
     }
     edge!("swar", swar, plain);
-    edge!("sse2", sse2, opt);
-    edge!("avx2", avx2, opt);
+    #[cfg(feature = "x86")]
+    if sse2::One::is_available() {
+        edge!("sse2", sse2, opt);
+    }
+    #[cfg(feature = "x86")]
+    if avx2::One::is_available() {
+        edge!("avx2", avx2, opt);
+    }
+    #[cfg(feature = "neon")]
+    edge!("neon", neon, opt);
+    #[cfg(feature = "simd128")]
+    edge!("simd128", simd128, opt);
     r.sample(0, || json!({"raw-edge": "start==end, start>end (by 4 and by 40 bytes) through One/Two/Three::{find_raw,rfind_raw,count_raw} of swar, sse2, avx2"}));
     total.merge(r);
 }
@@ -701,7 +780,6 @@ fn main() {
     let mode = args.pos.first().map(|s| s.as_str()).unwrap_or("help").to_string();
     let out = args.str("out", "-");
     let t0 = std::time::Instant::now();
-    assert!(sse2::One::is_available() && avx2::One::is_available(), "host must have SSE2+AVX2");
 
     if mode == "replay" {
         let subject = Subject::parse(&args.str("subject", "top"));
@@ -777,7 +855,11 @@ fn main() {
         "values" => {
             let lv = args.num("lv", if thorough { 12 } else { 9 }) as usize;
             let needles = [0x00u8, 0x01, 0x7f, 0x80, 0xff, b'a'];
-            let all = [Subject::Vn(2), Subject::Vn(4), Subject::Swar, Subject::Sse2, Subject::Avx2, Subject::Top];
+            let all: Vec<Subject> = args
+                .str("subjects", "vn2,vn4,swar,sse2,avx2,top")
+                .split(',')
+                .map(Subject::parse)
+                .collect();
             let mut n_assign = 0;
             for &n1 in &needles {
                 for oth in [n1 ^ 1, n1 ^ 0x80, n1.wrapping_add(1), n1.wrapping_sub(1), !n1] {
@@ -828,7 +910,7 @@ fn main() {
         }
         // Haystack flush against PROT_NONE pages (hardware-fault monitor).
         "guard" => {
-            let subj_s = [Subject::Swar, Subject::Sse2, Subject::Avx2, Subject::Top];
+            let subj_s: Vec<Subject> = args.str("subjects", "swar,sse2,avx2,top").split(',').map(Subject::parse).collect();
             let lmax = args.num("lmax", if thorough { 3 * 128 + 64 } else { 2 * 128 + 34 }) as usize;
             let lens: Vec<usize> = (0..=lmax).collect();
             for k in 1..=3u8 {
@@ -838,7 +920,7 @@ fn main() {
         }
         // Exact-size heap blocks, meant to run under valgrind memcheck.
         "heap" => {
-            let subj_s = [Subject::Swar, Subject::Sse2, Subject::Avx2, Subject::Top];
+            let subj_s: Vec<Subject> = args.str("subjects", "swar,sse2,avx2,top").split(',').map(Subject::parse).collect();
             let lmax = args.num("lmax", if thorough { 3 * 128 + 64 } else { 2 * 128 + 34 }) as usize;
             let shard = args.str("shard", "0/1");
             let (si, sn) = shard.split_once('/').map(|(a, b)| (a.parse::<usize>().unwrap(), b.parse::<usize>().unwrap())).unwrap();
